@@ -284,6 +284,8 @@ def gen_case(rng, chk, family=None, cwd=None, shape=None):
 
 def root_targets(case):
     cwd = case['cwd']
+    if case.get('root_targets'):
+        return case['root_targets']
     if case['shape'] == 'none':
         return [cwd + '/']                                    # "with no targets it applies to the files under the current directory"
     return [join(cwd, t) for t in case['targets']]
@@ -293,7 +295,7 @@ def run_case(chk, xvc, name, case):
     base = os.path.join(chk.scratch, name)
     storage = os.path.join(base, 'storage')
     os.makedirs(base, exist_ok=True)
-    stage = prepare(chk, xvc, f'{name}/stage', case['family'], case['variant'], storage)
+    stage = prepare(chk, xvc, f'{name}/stage', case['family'], case['variant'], case.get('storage_path') or storage)
     storage0 = os.path.join(base, 'storage0')
     if os.path.isdir(storage):
         shutil.copytree(storage, storage0)
@@ -366,16 +368,244 @@ def touched(pre, post, family):
     return t
 
 
+def is_dirpath(p, *abss):
+    for ab in abss:
+        r = ab['records'].get(p)
+        if r and r['type'] == 'Directory':
+            return True
+        if p in ab['dirs']:
+            return True
+    return p in DIRS
+
+
+def model_select(model_bin, requests):
+    """requests: list of (cwd, targets or None, store paths, disk files, dirs) -> list of (sel_store, sel_disk)"""
+    lines, idx = [], []
+    for cwd, targets, store, disk, dirs in requests:
+        lines += ['reset', f'cwd {cwd or "."}']
+        lines += [f'store {p}' for p in store] + [f'disk {p}' for p in disk] + [f'dir {p}' for p in dirs]
+        lines += ['notargets'] if targets is None else [f'target {t}' for t in targets]
+        lines += ['sel store', 'sel disk']
+        idx.append(len(lines))
+    rc, ans, err = run_lines(model_bin, [], lines)
+    if rc != 0 or len(ans) != len(lines):
+        return None
+    return [({x for x in ans[k - 2].split(',') if x}, {x for x in ans[k - 1].split(',') if x}) for k in idx]
+
+
+def model_request(r):
+    case, pre = r['case'], r['pre']
+    cwd = case['cwd']
+    dirs = set(pre['dirs']) | {cwd} | {cwd.rsplit('/', i)[0] for i in range(1, cwd.count('/') + 1)}
+    disk = [p for p in pre['workspace'] if os.path.basename(p) not in ('.gitignore', '.xvcignore')]
+    fam = case['family']
+    if fam in ('copy', 'move'):
+        src = case['targets'][0]
+        targets = [src + '*' if src.endswith('/') else src]           # get_source_path_metadata
+    else:
+        targets = None if case['shape'] == 'none' else case['targets']
+    return (cwd, targets, sorted(pre['records']), sorted(disk), sorted(dirs))
+
+
+def tie_check(r, sel_store, sel_disk):
+    """compare what the command touched in copy B (run from the subdirectory) with the model's selection"""
+    case, pre = r['case'], r['pre']
+    if 'B' not in r['runs']:
+        return []
+    post = r['runs']['B']['abs']
+    fam = case['family']
+    files = lambda s: {p for p in s if not is_dirpath(p, pre, post)}
+    tch = files(touched(pre, post, fam))
+    selF = {p for p in sel_store if pre['records'].get(p, {}).get('type') == 'File'}
+    selD = {p for p in sel_disk if p in pre['workspace']}
+    msgs = []
+
+    def eq(must, what):
+        if tch != must:
+            msgs.append(f'{what}: touched-but-not-selected {sorted(tch - must)}, selected-but-not-touched {sorted(must - tch)}')
+    if fam == 'track':
+        eq({p for p in selD if pre['records'].get(p, {}).get('type') != 'File'}, 'track: files newly recorded vs model selectDisk (untracked files)')
+    elif fam == 'carry-in':
+        edited = {p for p in selF if p in pre['workspace'] and p in FILES and pre['workspace'][p].get('sha') != sha(FILES[p].encode())}
+        if '--force' in case['opts']:
+            if not (edited <= tch <= selF):
+                msgs.append(f'carry-in --force: touched {sorted(tch)} not between edited∩selected {sorted(edited)} and selected {sorted(selF)}')
+        else:
+            eq(edited, 'carry-in: files carried in vs model selectStore ∩ edited')
+    elif fam == 'recheck':
+        m = case['opts'][1].capitalize() if case['opts'] else None
+        must = {p for p in selF if p not in pre['workspace'] or (m and pre['records'][p]['method'] != m)}
+        eq(must, 'recheck: files re-materialised vs model selectStore ∩ (absent or other method)')
+    elif fam == 'list':
+        listed = files({row[3] for row in post['list']})
+        lo, hi = files(selD), files(selD | set(sel_store))
+        if not (lo <= listed <= hi):
+            msgs.append(f'list: listed {sorted(listed)} not between model selectDisk {sorted(lo)} and selectDisk ∪ selectStore {sorted(hi)}')
+    elif fam in ('send', 'bring', 'remove'):
+        eq(selF, f'{fam}: files whose objects moved vs model selectStore')
+    elif fam == 'untrack':
+        removed = {p for p, rec in pre['records'].items() if rec['type'] == 'File' and p not in post['records']}
+        if removed != selF:
+            msgs.append(f'untrack: records removed {sorted(removed)} vs model selectStore {sorted(selF)}')
+    elif fam == 'move':
+        removed = {p for p, rec in pre['records'].items() if rec['type'] == 'File' and p not in post['records']}
+        if removed != selF:
+            msgs.append(f'move: source records moved away {sorted(removed)} vs model selectStore(source) {sorted(selF)}')
+    return msgs
+
+
 def describe(r):
     return {'case': r['case'], 'runs': {k: {x: v[x] for x in ('argv', 'cwd', 'rc', 'stderr')} for k, v in r['runs'].items()},
             'oracle': r['oracle']}
 
 
 def signature(case, msgs):
-    if case.get('finding'):
-        return {'finding': case['finding']}
+    if any('..' in t.split('/') for t in case['targets']):
+        return {'finding': 'parent-relative-target'}
+    if case.get('storage_path') and not case['storage_path'].startswith('/'):
+        return {'finding': 'relative-local-storage-path'}
     return {'finding': 'cwd-dependence', 'family': case['family']}
 
 
+CORPUS = [
+    # F3 (fix: C18-F3.patch): store targets prefixed without '/'
+    {'family': 'recheck', 'cwd': 'a', 'variant': 0, 'opts': [], 'shape': 'file', 'targets': ['f1.txt']},
+    {'family': 'list', 'cwd': 'a/b', 'variant': 0, 'opts': [], 'shape': 'file', 'targets': ['g1.txt']},
+    {'family': 'untrack', 'cwd': 'a/b/c', 'variant': 0, 'opts': [], 'shape': 'glob', 'targets': ['*.txt']},
+    {'family': 'send', 'cwd': 'a/b', 'variant': 0, 'opts': [], 'shape': 'dir', 'targets': ['c']},
+    # directory-slash rule: the directory named without '/' does not exist in the workspace
+    {'family': 'recheck', 'cwd': 'a', 'variant': 3, 'opts': [], 'shape': 'dir', 'targets': ['b']},
+    {'family': 'recheck', 'cwd': 'a/b', 'variant': 3, 'opts': [], 'shape': 'dir', 'targets': ['c']},
+    # K9b (fix: C18-K9b.patch): directory destination of copy / move
+    {'family': 'copy', 'cwd': 'a/b', 'variant': 0, 'opts': [], 'shape': 'file->dir', 'targets': ['g1.txt', 'dstdir/']},
+    {'family': 'move', 'cwd': 'a', 'variant': 0, 'opts': [], 'shape': 'dir->dir', 'targets': ['b/c/', 'e/']},
+    # track (fix: C18-track.patch): no targets; directory target with -C
+    {'family': 'track', 'cwd': 'a/b', 'variant': 0, 'opts': [], 'shape': 'none', 'targets': []},
+    {'family': 'track', 'cwd': 'a/b', 'variant': 0, 'opts': [], 'shape': 'dir/', 'targets': ['c/']},
+    {'family': 'track', 'cwd': 'a', 'variant': 1, 'opts': [], 'shape': 'glob', 'targets': ['**/*.dat']},
+]
+
+KNOWN_REPLAYS = [
+    # parent-relative targets are globs, never normalised
+    {'family': 'recheck', 'cwd': 'a/b', 'variant': 0, 'opts': [], 'shape': 'file', 'targets': ['../f1.txt'], 'root_targets': ['a/f1.txt']},
+    {'family': 'list', 'cwd': 'a/b/c', 'variant': 0, 'opts': [], 'shape': 'file', 'targets': ['../../f2.dat'], 'root_targets': ['a/f2.dat']},
+    # a relative `storage new local --path` is resolved against the process cwd at use time
+    {'family': 'send', 'cwd': 'a/b', 'variant': 0, 'opts': [], 'shape': 'file', 'targets': ['g1.txt'], 'storage_path': '../../storage'},
+]
+
+
+def run_cases(chk, xvc, cases, tag):
+    with concurrent.futures.ThreadPoolExecutor(max_workers=WORKERS) as ex:
+        futs = [ex.submit(run_case, chk, xvc, f'{tag}{i}', c) for i, c in enumerate(cases)]
+        return [f.result() for f in futs]
+
+
+def simplify(chk, xvc, r, failing):
+    """smaller failing variants: one target at a time, no options, depth 1"""
+    case = r['case']
+    best = r
+    n = 0
+    cands = []
+    if len(case['targets']) > 1 and case['family'] not in ('copy', 'move'):
+        cands += [dict(case, targets=[t]) for t in case['targets']]
+    if case['opts']:
+        cands.append(dict(case, opts=[]))
+    for c in cands:
+        n += 1
+        x = run_case(chk, xvc, f'simp{n}', c)
+        if failing(x):
+            best = x
+            if not c['opts']:
+                break
+    return best
+
+
 def run(chk: Check):
-    raise NotImplementedError
+    quick = chk.tier == 'quick'
+    model = chk.lean('XvcTargets', 'XvcTargets.Props', exe='targetsmodel', extra_modules=['XvcTargets.Model', 'XvcTargets.Lemmas'])
+    xvc = chk.build_xvc()
+    chk.trusted_base += [
+        'lib/c18.py: repository generator, cp -a copies, abstraction (independent replay of the JSON event stores, cache/workspace/storage walk), diff, attribution of touched objects to paths',
+        'lib/xvcbin.py Sandbox; the concrete matcher `globMatch` of the model stands for fast_glob on the generated pattern shapes (literal, *, **/, trailing /**), validated by the tie',
+    ]
+    chk.assumptions += [
+        'targets are relative, without `.`/`..` components (parent-relative targets: known finding), no spaces or commas',
+        'the shortcut of targets_from_disk for plain file names (stat instead of walk) returns the same set as the walk (checked by the metamorphic comparison: the root run takes the shortcut, the subdirectory run does not)',
+        'records of directories are compared by path and type only; `.gitignore` files as sorted lines without xvc\'s time-stamped banner',
+        'local storage is created with an absolute path (relative path: known finding)',
+    ]
+    n = 90 if quick else 1300
+    cases = [dict(c) for c in CORPUS]
+    # systematic part: every family x every depth, shapes rotated; then random
+    k = 0
+    for fam in FAMILIES:
+        for cwd in CWDS:
+            shape = None if fam in ('copy', 'move') else SHAPES[k % len(SHAPES)]
+            k += 1
+            cases.append(gen_case(chk.rng, chk, fam, cwd, shape))
+    cases += [gen_case(chk.rng, chk) for _ in range(n)]
+    chk.extra['rule'] = (f'corpus ({len(CORPUS)} fixed cases: F3, directory-slash rule with an absent directory, K9b, track without targets / with -C) + {len(KNOWN_REPLAYS)} known-finding replays + '
+                         f'every command family (track, carry-in, recheck, list, send, bring, remove, untrack, copy, move) x every depth 1-3 with rotating target shapes + {n} random cases '
+                         '(family, cwd of depth 1-3, shape in file / two files / dir/ / dir / glob / file+glob / no targets, option variants --recheck-method, --force, preparation variants incl. tracked '
+                         'with copy/symlink/hardlink, edited files, deleted files, a whole directory deleted). Every case: one prepared repository, three byte-identical copies, the command from the root with '
+                         'root-relative targets (A), from the subdirectory (B) and with -C (C); abstractions of A/B and A/C compared; model selection vs paths touched in B. '
+                         'Non-trivial = the command touched at least one path in copy A; distinct by (family, cwd, targets, options, variant).')
+    results = run_cases(chk, xvc, cases, 'c')
+    have_model = os.path.exists(model)
+    if not have_model:
+        chk.notes.append('model driver did not build; only the metamorphic oracle ran')
+    first = {}
+    st = chk.tie['streams'].setdefault('metamorphic', {'cases': 0, 'failing': 0})
+    for r in results:
+        chk.evaluations += 1
+        st['cases'] += 1
+        c = r['case']
+        if 'A' in r['runs'] and touched(r['pre'], r['runs']['A']['abs'], c['family']):
+            chk.nontrivial.add(hashlib.sha1(json.dumps(c, sort_keys=True).encode()).hexdigest())
+        if r['oracle']:
+            st['failing'] += 1
+            first.setdefault(json.dumps(signature(c, r['oracle']), sort_keys=True), r)
+        if len(chk.samples) < 6 and chk.evaluations % 9 == 0 and not r['oracle']:
+            chk.samples.append({'case': c, 'runs': {k: {'argv': v['argv'], 'cwd': v['cwd'], 'rc': v['rc']} for k, v in r['runs'].items()},
+                                'touched_in_B': sorted(touched(r['pre'], r['runs']['B']['abs'], c['family']))[:8]})
+    for sig, r in first.items():
+        small = simplify(chk, xvc, r, lambda x, s=sig: bool(x['oracle']) and json.dumps(signature(x['case'], x['oracle']), sort_keys=True) == s)
+        chk.oracle_failure(small['oracle'][0][:600], small['case'], describe(small), signature=signature(small['case'], small['oracle']))
+    # tie
+    if have_model:
+        ok = [r for r in results if not r['oracle']]
+        sels = model_select(model, [model_request(r) for r in ok])
+        ts = chk.tie['streams'].setdefault('model_selection', {'cases': 0, 'disagreements': 0})
+        if sels is None:
+            chk.disagreement('model_selection', {}, 'n/a', 'model driver failed', 'process failure')
+        else:
+            seen = set()
+            for r, (ss, sd) in zip(ok, sels):
+                ts['cases'] += 1
+                m = tie_check(r, ss, sd)
+                if m:
+                    ts['disagreements'] += 1
+                    if r['case']['family'] not in seen:
+                        seen.add(r['case']['family'])
+                        chk.disagreement('model_selection', r['case'], {'touched_in_B': sorted(touched(r['pre'], r['runs']['B']['abs'], r['case']['family']))},
+                                         {'selectStore': sorted(ss), 'selectDisk': sorted(sd)}, '; '.join(m)[:1200])
+    # known-finding replays (oracle only)
+    kres = run_cases(chk, xvc, [dict(c) for c in KNOWN_REPLAYS], 'k')
+    for r in kres:
+        chk.evaluations += 1
+        if r['oracle']:
+            chk.oracle_failure(r['oracle'][0][:600], r['case'], describe(r), signature=signature(r['case'], r['oracle']))
+    chk.tie['streams']['known_replays'] = {'cases': len(kres), 'failing': sum(1 for r in kres if r['oracle'])}
+    return chk.finish()
+
+
+def replay(chk: Check, data):
+    xvc = chk.build_xvc()
+    for i, f in enumerate(data.get('failures', [])):
+        r = run_case(chk, xvc, f'replay{i}', f['case'])
+        chk.evaluations += 1
+        print(json.dumps(describe(r), indent=1))
+        print('oracle:', r['oracle'] or 'property holds on this input')
+        if r['oracle']:
+            chk.oracle_failure(r['oracle'][0][:600], r['case'], describe(r), signature=signature(r['case'], r['oracle']))
+    return chk.finish()
